@@ -55,21 +55,30 @@ def reply_class(r):
 
 
 def run_stream(name, drv, model, make_gen, make_oracle, seed, episodes, nops, header=3,
-               shrink_budget=40, max_failures=3, env=None, deadline=None):
+               shrink_budget=40, max_failures=2, env=None, deadline=None):
+    """Runs `episodes` generated episodes.  The model is compared reply by reply until the first
+    divergence of an episode; after a divergence the episode (and, once `max_failures` divergences
+    were recorded, every later episode) continues with the implementation and the property oracle
+    only — that is the failing-input search."""
     st = Stats()
     failures = []
+    ndiff = nreal = 0
     t0 = time.time()
     for ep in range(episodes):
         if deadline and time.time() > deadline:
             break
+        if nreal >= max_failures:
+            break
         rng = random.Random(seed * 1000003 + ep * 7919 + 17)
-        pair = Pair(drv, model, env=env)
+        use_model = model if ndiff < max_failures else None
+        pair = Pair(drv, use_model, env=env)
         orc = make_oracle()
         gen = make_gen(rng)
         co = gen.episode(orc, nops)
         ops = []
-        fail = None
+        fails = []
         window = []
+        comparing = use_model is not None
         try:
             op = next(co)
             while True:
@@ -81,18 +90,20 @@ def run_stream(name, drv, model, make_gen, make_oracle, seed, episodes, nops, he
                 window = (window + [kind + ">" + reply_class(ri)])[-3:]
                 st.distinct.add(hashlib.md5("|".join(window).encode()).hexdigest()[:12])
                 if ri.startswith("panic") or ri in ("hang", "dead"):
-                    fail = Failure("crash", name, list(ops), len(ops) - 1, op, ri, seed, ep)
+                    fails.append(Failure("crash", name, list(ops), len(ops) - 1, op, ri, seed, ep))
                     break
                 msg = orc.observe(op, ri)
                 if msg:
-                    fail = Failure("oracle", name, list(ops), len(ops) - 1, op, msg, seed, ep)
+                    fails.append(Failure("oracle", name, list(ops), len(ops) - 1, op, msg, seed, ep))
                     break
-                if model is not None:
+                if comparing:
                     st.compared += 1
                     if ri != rm:
-                        fail = Failure("diff", name, list(ops), len(ops) - 1, op,
-                                       "impl=%s model=%s" % (ri[:600], rm[:600]), seed, ep)
-                        break
+                        fails.append(Failure("diff", name, list(ops), len(ops) - 1, op,
+                                             "impl=%s model=%s" % (ri[:600], rm[:600]), seed, ep))
+                        comparing = False
+                        pair.model.close()
+                        pair.model = None
                 op = co.send(ri)
         except StopIteration:
             pass
@@ -101,9 +112,15 @@ def run_stream(name, drv, model, make_gen, make_oracle, seed, episodes, nops, he
         st.episodes += 1
         st.merge_shapes(getattr(orc, "shapes", {}))
         if len(st.samples) < 3 and ops:
-            st.samples.append({"episode": ep, "ops": ops[:12], "n_ops": len(ops)})
-        if fail is not None:
-            # for a diff, look for a genuine property failure first by continuing without the model
+            st.samples.append({"episode": ep, "ops": [o[:160] for o in ops[:12]], "n_ops": len(ops)})
+        for fail in fails:
+            if fail.kind == "diff":
+                ndiff += 1
+                if ndiff > max_failures:
+                    continue
+            else:
+                nreal += 1
+
             def fails_same(cand, kind=fail.kind):
                 out = replay(drv, model if kind == "diff" else None, cand, make_oracle, env=env)
                 if kind == "oracle":
@@ -121,10 +138,8 @@ def run_stream(name, drv, model, make_gen, make_oracle, seed, episodes, nops, he
                     fail.min_detail = out.crashes[0][2]
                 elif fail.kind == "diff" and out.diffs:
                     fail.min_detail = "impl=%s model=%s" % (out.diffs[0][2][:600], out.diffs[0][3][:600])
-            except Exception as e:  # shrinking is best effort
+            except Exception:  # shrinking is best effort
                 fail.min_detail = None
             failures.append(fail)
-            if len(failures) >= max_failures:
-                break
     st.wall = time.time() - t0
     return st, failures
